@@ -10,7 +10,8 @@ EXPLANATION = (
     "the next record's definition line); (R2) the bounded sequence reader copies min(remaining, window) bytes per step and "
     "its line-skipping reader stops at the definition prefix; (R3) the indexer's two consistency comparisons lead to "
     "error exits and every Some(record) exit passes the last-line test; (R5) every fill_buf scanner of the FASTA/FASTQ "
-    "readers is peek-1 / scan-in-loop / delegation (shared with C12).")
+    "readers is peek-1 / scan-in-loop / delegation (shared with C12)."
+    " (R6) FASTQ read_record resets the whole reused record through a field-complete Record::clear() before the appending line reads; (R7) append-buffer discipline of all FASTA/FASTQ readers and indexers, with the three public append-to-caller-buffer APIs tabled.")
 ASSUMPTIONS = ["the offset arithmetic start / line_bases * line_width + start % line_bases is pinned by unit tests (value-level)"]
 NOT_DECIDED = ["offset arithmetic and CRLF accounting values (a `%` operand mutant survives the suite and this check)",
                "FASTA/FASTQ writer/reader record equality at every line width"]
